@@ -188,10 +188,10 @@ structure Dialect where
 
 /-- RFC 4515 / 4512 as written -/
 def Dialect.rfc : Dialect := ⟨false, true⟩
-/-- RFC 4515 / 4512 with the literal `"dn"` read in lower case only -/
-def Dialect.rfcLowerDn : Dialect := ⟨false, false⟩
 /-- the language of `ldap3::parse_filter` -/
-def Dialect.lib : Dialect := ⟨true, false⟩
+def Dialect.lib : Dialect := ⟨true, true⟩
+/-- the library's language with the keyword spelled `dn` only: where the canonical strings live -/
+def Dialect.libLowerDn : Dialect := ⟨true, false⟩
 
 /-- `numericoid = number 1*( DOT number )` (`*` in the `bareNumber` dialect) -/
 def IsNumericOid (d : Dialect) (s : Bytes) : Prop :=
@@ -277,10 +277,8 @@ def Gtop (d : Dialect) (f : Filter) (s : Bytes) : Prop := G d f s ∨ GItem d f 
 
 /-- the language of RFC 4515 (+ RFC 4526, + bare item): the grammar, over UTF-8 text -/
 def GRfc (f : Filter) (s : Bytes) : Prop := Gtop .rfc f s ∧ utf8Valid s = true
-/-- the same with the literal `"dn"` read in lower case only -/
-def GRfcLowerDn (f : Filter) (s : Bytes) : Prop := Gtop .rfcLowerDn f s ∧ utf8Valid s = true
 /-- the library's language: additionally a bare number as attribute type / matching rule and
-arbitrary octets ≥ 0x80 in values -/
+arbitrary octets ≥ 0x80 in values (the keyword `dn` in any case, as in the RFC) -/
 def GLib (f : Filter) (s : Bytes) : Prop := Gtop .lib f s
 
 /-! ## canonical printing -/
@@ -347,15 +345,52 @@ def normEsc : Bytes → Bytes
       | _ => c :: r
     else c :: normEsc r
 
-/-- `normEsc`, with the outer parentheses of a bare top-level item supplied -/
+/-- where the scan for the `dnattrs` keyword is inside an item: at its first octet, inside its
+attribute description, past the point where the keyword can occur, or on the two letters of a
+keyword being rewritten -/
+inductive KwState where
+  | start
+  | inAttr
+  | other
+  | kwD
+  | kwN
+  deriving DecidableEq
+
+def isD (c : UInt8) : Bool := c == 0x64 || c == 0x44
+def isN (c : UInt8) : Bool := c == 0x6E || c == 0x4E
+/-- octets of an attribute description -/
+def attrOctet (c : UInt8) : Bool := keychar c || c == 0x2E || c == 0x3B
+
+/-- after a `:` met in state `st`: the next octets are `dn` in some case followed by `:`, and this
+is the `dnattrs` keyword: it follows an attribute description, or a matching rule follows it
+(`(:DN:=x)` is the rule called `DN`) -/
+def kwAt (st : KwState) : Bytes → Bool
+  | c1 :: c2 :: c3 :: r' => isD c1 && isN c2 && c3 == 0x3A && (st == .inAttr || r'.head? != some 0x3D)
+  | _ => false
+
+/-- spelling normal form of the `dnattrs` keyword: `:dn` in any case becomes `:dn` where it is the
+keyword, i.e. where it is the first `:`-segment of an item and `kwAt` holds.  Everything else,
+values in particular, is copied. -/
+def lowerKw : KwState → Bytes → Bytes
+  | _, [] => []
+  | st, c :: r =>
+    if st = .kwD then 0x64 :: lowerKw .kwN r
+    else if st = .kwN then 0x6E :: lowerKw .other r
+    else if c = 0x28 then c :: lowerKw .start r
+    else if c = 0x3A ∧ st ≠ .other then c :: lowerKw (if kwAt st r then .kwD else .other) r
+    else if attrOctet c ∧ st ≠ .other then c :: lowerKw .inAttr r
+    else c :: lowerKw .other r
+
+/-- normal form of a filter string: keyword spelling, then escaping, with the outer parentheses of
+a bare top-level item supplied -/
 def normTop (s : Bytes) : Bytes :=
   match s with
-  | 0x28 :: _ => normEsc s
-  | _ => 0x28 :: (normEsc s ++ [0x29])
+  | 0x28 :: _ => normEsc (lowerKw .start s)
+  | _ => 0x28 :: (normEsc (lowerKw .start s) ++ [0x29])
 
 /-- what the trees denoted by filter strings look like: at least one substring piece, none
 empty; an extensible match has a rule or a type, and a rule following a type without `:dn` is not
-spelled `dn` -/
+spelled like the keyword -/
 def wfItem : Filter → Bool
   | .substr _ ini any fin =>
       (ini.isSome || !any.isEmpty || fin.isSome) &&
@@ -364,7 +399,7 @@ def wfItem : Filter → Bool
       (match fin with | some v => !v.isEmpty | none => true)
   | .ext rule attr _ dn =>
       (rule.isSome || attr.isSome) &&
-      !(attr.isSome && !dn && rule == some [0x64, 0x6E])
+      !(attr.isSome && !dn && (match rule with | some r => isDnKw .rfc r | none => false))
   | _ => true
 
 mutual
